@@ -29,7 +29,7 @@ import ast as _ast
 
 import z3
 
-from pyvc.core import SV, KeyIter, PathEnd, SymDict, SymObj, SymSeq, TInt, TOpaque, TReal, Unsupported
+from pyvc.core import SV, KeyIter, PathEnd, SymDict, SymObj, SymSeq, TInt, TOpaque, TReal, Unsupported  # noqa: F401
 from pyvc.interp import BuiltinVal
 from pyvc.task import Task, check_call
 
@@ -285,7 +285,7 @@ def _task(mode, with_bond, monotone=False):
         assumes=[
             "products of two unknown reals (cutoff * total weight, cutoff * largest value, value ** 2) are abstracted by uninterpreted functions with the order axioms of real multiplication (commutative, monotone for non-negative factors, squares non-negative and monotone on non-negative reals)",
             "A-numpy: sort, cumsum (ghost fold), count_nonzero, **, >=, 1-D indexing have their mathematical meaning; reals instead of floats (A-float)",
-            "lemma instances: a fold of non-negative terms is monotone; a monotone boolean sequence has a boundary index and its number of true entries is length - boundary",
+            "lemma instances: a fold of non-negative terms is monotone; a monotone boolean sequence has a boundary index and its number of true entries is length - boundary (machine-checked in Lean: contracts/lean/Fold.lean LS_cum_mono, LB_boundary, LB_count)",
             "prefix of svd_truncated only: statements after `sub_max_bonds = [...]` (slicing of the factors, absorption) are not interpreted here (bounded tier C13)",
             "svd(x) abstracted: singular values non-negative, at least one",
         ],
@@ -293,5 +293,195 @@ def _task(mode, with_bond, monotone=False):
     )
 
 
+# ---------------------------------------------------------------------------------------------------
+# second half of svd_truncated: removal of emptied sectors, slicing of the factors, bond tables
+
+
+def _slicing_task():
+    """svd_truncated(cutoff > 0, absorb=None) from the per-sector counts to the return: which sectors the three
+    results keep, how the blocks are sliced, the new bond table on both factors -- for any number of sectors."""
+    from pyvc.builtins_model import LoopSpec, tuple_type
+    from pyvc.core import SymList, TBool
+
+    from .linalg_bonds import BLK as MBLK
+    from .linalg_bonds import TUP2, cols, dual_term, install, k0, k1, mk_index, mkkey, rows
+    from .util import sym_obj
+
+    sliceU = z3.Function("keep_first_columns", MBLK.sort(), z3.IntSort(), MBLK.sort())
+    sliceV = z3.Function("keep_first_rows", MBLK.sort(), z3.IntSort(), MBLK.sort())
+    sliceS = z3.Function("keep_first_values", VBLK.sort(), z3.IntSort(), VBLK.sort())
+    vlen = z3.Function("number_of_values", VBLK.sort(), z3.IntSort())
+    Q2 = "linalg.svd_truncated"
+
+    def axioms():
+        b, n, v, t = z3.Const("b!sl", MBLK.sort()), z3.Int("n!sl"), z3.Const("v!sl", VBLK.sort()), z3.Real("t!sl")
+        return [
+            z3.ForAll([b, n], z3.Implies(z3.And(0 <= n, n <= cols(b)), z3.And(cols(sliceU(b, n)) == n, rows(sliceU(b, n)) == rows(b))), patterns=[sliceU(b, n)]),
+            z3.ForAll([b, n], z3.Implies(z3.And(0 <= n, n <= rows(b)), z3.And(rows(sliceV(b, n)) == n, cols(sliceV(b, n)) == cols(b))), patterns=[sliceV(b, n)]),
+            z3.ForAll([v, n], z3.Implies(z3.And(0 <= n, n <= vlen(v)), vlen(sliceS(v, n)) == n), patterns=[sliceS(v, n)]),
+            z3.ForAll([v, t], z3.And(0 <= CNTGE(v, t), CNTGE(v, t) <= vlen(v)), patterns=[CNTGE(v, t)]),
+        ]
+
+    def body(it):
+        install(it)
+        ctx = it.ctx
+        cls = it.get_class("abelian_core", "AbelianArray")
+        n = ctx.fresh("n_sectors", TInt)
+        ctx.assume(n >= 0)
+        K = z3.Const("U_sectors_in_order", z3.ArraySort(z3.IntSort(), TUP2.sort()))
+        pos = z3.Function("position_of_sector", TUP2.sort(), z3.IntSort())
+        posc = z3.Function("position_of_column_charge", z3.IntSort(), z3.IntSort())
+        i, j = z3.Int("i!sl"), z3.Int("j!sl")
+        key, cc = z3.Const("key!sl", TUP2.sort()), z3.Int("c!sl")
+
+        def mkdict(name, kty, vty):
+            return SymDict(z3.Const(name + "_has", z3.ArraySort(kty.sort(), z3.BoolSort())), z3.Const(name + "_val", z3.ArraySort(kty.sort(), vty.sort())), kty, vty, name)
+
+        ub, sb, vb = mkdict("U_blocks", TUP2, MBLK), mkdict("s_blocks", TInt, VBLK), mkdict("VH_blocks", TUP2, MBLK)
+        U0, S0, V0 = (ub.has, ub.val), (sb.has, sb.val), (vb.has, vb.val)
+        inr = lambda x: z3.And(0 <= x, x < n)  # noqa: E731
+        # post-state of svd(x) (contracts/linalg_bonds.py) + dict insertion order (A-order)
+        ctx.assume(z3.ForAll([i], z3.Implies(inr(i), z3.And(z3.Select(U0[0], K[i]), pos(K[i]) == i, posc(k1(K[i])) == i))))
+        ctx.assume(z3.ForAll([key], z3.Implies(z3.Select(U0[0], key), z3.And(inr(pos(key)), K[pos(key)] == key))))
+        ctx.assume(z3.ForAll([cc], z3.Select(S0[0], cc) == z3.And(inr(posc(cc)), k1(K[posc(cc)]) == cc)))
+        ctx.assume(z3.ForAll([key], z3.Select(V0[0], key) == z3.And(k0(key) == k1(key), z3.Select(S0[0], k1(key)))))
+        # shapes: bond size = columns of U block = rows of VH block = number of singular values
+        ctx.assume(z3.ForAll([i], z3.Implies(inr(i), z3.And(cols(z3.Select(U0[1], K[i])) == vlen(z3.Select(S0[1], k1(K[i]))), rows(z3.Select(V0[1], mkkey(k1(K[i]), k1(K[i])))) == vlen(z3.Select(S0[1], k1(K[i]))), vlen(z3.Select(S0[1], k1(K[i]))) >= 1))))
+
+        row_ix, col_ix = mk_index(it, "row"), mk_index(it, "col")
+        bondU, bondV = mk_index(it, "bondU"), mk_index(it, "bondV")
+        symo = sym_obj(it, "U1")
+        U, VH = SymObj(cls, tag="U"), SymObj(cls, tag="VH")
+        U.fields.update({"_blocks": ub, "_indices": (row_ix, bondU), "_symmetry": symo, "_charge": SV(ctx.fresh("cU", TInt), TInt)})
+        VH.fields.update({"_blocks": vb, "_indices": (bondV, col_ix), "_symmetry": symo, "_charge": SV(z3.IntVal(0), TInt)})
+        U.fields["sectors"] = SymSeq(n, K, TUP2, "tuple")  # dict order made explicit (see A-order)
+        s = SymObj(None, tag="s")
+        s.fields["blocks"] = sb
+        s.fields["to_dense"] = BuiltinVal("to_dense", lambda it_, a, kw: SymObj(None, tag="dense"))
+        x = SymObj(None, tag="x")
+        x.fields["backend"] = "numpy"
+        it.summaries["linalg.svd"] = lambda it_, a, kw: (U, s, VH)
+        it.debug_flag = False
+        cutoff = ctx.fresh("cutoff", TReal)
+        ctx.assume(cutoff > 0)
+        t = cutoff  # mode 1, no bond limit: the threshold is the cutoff (the threshold itself: tasks above)
+        N = lambda q: CNTGE(z3.Select(S0[1], k1(K[q])), t)  # noqa: E731
+        it.externals["ar.do"] = lambda it_, a, kw: SymObj(None, tag="sorted") if a[0] == "sort" else (_ for _ in ()).throw(Unsupported(f"ar.do({a[0]!r})"))
+        it.externals["ar.size"] = lambda it_, a, kw: SV(ctx.fresh("total", TInt), TInt)
+
+        def comp_hook(it_, e, env, kind, it0):
+            if isinstance(it0, KeyIter) and it0.has is sb.has and it0.mode == "values":
+                q = z3.Int("q!cnt")
+                return SymList(n, z3.Lambda([q], N(q)), TInt)  # aligned with U.sectors (A-order)
+            return None
+
+        it.comp_hook = comp_hook
+
+        def og(it_, obj, key_):
+            from pyvc.interp import SliceVal
+
+            if isinstance(key_, tuple) and len(key_) == 2 and all(isinstance(z, SliceVal) for z in key_):
+                a, b = key_
+                if a.lo is None and a.hi is None and b.lo is None and b.hi is not None:
+                    from pyvc.interp import I
+
+                    return SV(sliceU(obj.t, I(b.hi)), MBLK)
+                if b.lo is None and b.hi is None and a.lo is None and a.hi is not None:
+                    from pyvc.interp import I
+
+                    return SV(sliceV(obj.t, I(a.hi)), MBLK)
+            raise Unsupported("unexpected subscript of a block")
+
+        it.opaque_getitem = dict(getattr(it, "opaque_getitem", {}), MBlock=og)
+
+        def oslice(it_, obj, lo, hi, st):
+            from pyvc.interp import I
+
+            if lo is None and st is None and hi is not None:
+                return SV(sliceS(obj.t, I(hi)), VBLK)
+            raise Unsupported("unexpected slice of singular values")
+
+        it.opaque_slice = dict(getattr(it, "opaque_slice", {}), SingularValuesOfSector=oslice)
+
+        def view(d, dflt):
+            if isinstance(d, dict):
+                assert not d
+                return (lambda q: z3.BoolVal(False)), (lambda q: dflt)
+            return (lambda q: z3.Select(d.has, q)), (lambda q: z3.Select(d.val, q))
+
+        def state(k, nc):
+            """the three block dicts and the new table after the first k sectors have been processed"""
+            nh, nv = view(nc, z3.IntVal(0))
+            done = lambda p: z3.And(0 <= p, p < k)  # noqa: E731
+            return [
+                ("U_keys", z3.ForAll([key], z3.Select(ub.has, key) == z3.And(z3.Select(U0[0], key), z3.Or(z3.Not(done(pos(key))), N(pos(key)) > 0)))),
+                ("U_values", z3.ForAll([key], z3.Implies(z3.Select(ub.has, key), z3.Select(ub.val, key) == z3.If(done(pos(key)), sliceU(z3.Select(U0[1], key), N(pos(key))), z3.Select(U0[1], key))))),
+                ("s_keys", z3.ForAll([cc], z3.Select(sb.has, cc) == z3.And(z3.Select(S0[0], cc), z3.Or(z3.Not(done(posc(cc))), N(posc(cc)) > 0)))),
+                ("s_values", z3.ForAll([cc], z3.Implies(z3.Select(sb.has, cc), z3.Select(sb.val, cc) == z3.If(done(posc(cc)), sliceS(z3.Select(S0[1], cc), N(posc(cc))), z3.Select(S0[1], cc))))),
+                ("VH_keys", z3.ForAll([key], z3.Select(vb.has, key) == z3.And(z3.Select(V0[0], key), z3.Or(z3.Not(done(posc(k1(key)))), N(posc(k1(key))) > 0)))),
+                ("VH_values", z3.ForAll([key], z3.Implies(z3.Select(vb.has, key), z3.Select(vb.val, key) == z3.If(done(posc(k1(key))), sliceV(z3.Select(V0[1], key), N(posc(k1(key)))), z3.Select(V0[1], key))))),
+                ("bond_table_keys", z3.ForAll([cc], nh(cc) == z3.And(z3.Select(S0[0], cc), done(posc(cc)), N(posc(cc)) > 0))),
+                ("bond_table_sizes", z3.ForAll([cc], z3.Implies(nh(cc), nv(cc) == N(posc(cc))))),
+            ]
+
+        def inv(it_, env, g):
+            return state(g["k"], env.vars["new_inner_chargemap"])
+
+        cells = [lambda env: ub, lambda env: sb, lambda env: vb]
+        # the first `for` statement of the function (comprehensions are not counted)
+        it.loop_specs[(Q2, 0)] = LoopSpec(carried={"new_inner_chargemap": ("dict", TInt, TInt)}, cells=cells, invariant=inv)
+        fn = it.module_lookup("linalg", "svd_truncated")
+
+        def post(r):
+            if not (isinstance(r, tuple) and len(r) == 3 and r[0] is U and r[1] is s and r[2] is VH):
+                return [("returns_the_three_truncated_factors", False)]
+            out = []
+            kept = lambda p: z3.And(inr(p), N(p) > 0)  # noqa: E731
+            ui, vi = U.fields["_indices"], VH.fields["_indices"]
+            ok = isinstance(ui, tuple) and isinstance(vi, tuple) and len(ui) == 2 and len(vi) == 2
+            out.append(("factors_stay_matrices", ok))
+            if not ok:
+                return out
+            bl, br = ui[1], vi[0]
+            cml, cmr = bl.fields["_chargemap"], br.fields["_chargemap"]
+            out += [
+                ("U_keeps_exactly_the_sectors_with_a_surviving_value", z3.ForAll([key], z3.Select(ub.has, key) == z3.And(z3.Select(U0[0], key), kept(pos(key))))),
+                ("U_blocks_are_the_first_columns", z3.ForAll([key], z3.Implies(z3.Select(ub.has, key), z3.Select(ub.val, key) == sliceU(z3.Select(U0[1], key), N(pos(key)))))),
+                ("s_keeps_exactly_the_charges_with_a_surviving_value", z3.ForAll([cc], z3.Select(sb.has, cc) == z3.And(z3.Select(S0[0], cc), kept(posc(cc))))),
+                ("s_blocks_are_the_first_values", z3.ForAll([cc], z3.Implies(z3.Select(sb.has, cc), z3.Select(sb.val, cc) == sliceS(z3.Select(S0[1], cc), N(posc(cc)))))),
+                ("VH_keeps_exactly_the_diagonal_sectors_of_surviving_charges", z3.ForAll([key], z3.Select(vb.has, key) == z3.And(k0(key) == k1(key), z3.Select(sb.has, k1(key))))),
+                ("VH_blocks_are_the_first_rows", z3.ForAll([key], z3.Implies(z3.Select(vb.has, key), z3.Select(vb.val, key) == sliceV(z3.Select(V0[1], key), N(posc(k1(key))))))),
+                ("sectors_are_removed_together", z3.ForAll([key], z3.Implies(z3.Select(ub.has, key), z3.And(z3.Select(sb.has, k1(key)), z3.Select(vb.has, mkkey(k1(key), k1(key))))))),
+                ("bond_table_on_U_has_exactly_the_surviving_charges", z3.ForAll([cc], z3.Select(cml.has, cc) == z3.Select(sb.has, cc))),
+                ("bond_table_sizes_are_the_kept_counts", z3.ForAll([cc], z3.Implies(z3.Select(cml.has, cc), z3.Select(cml.val, cc) == N(posc(cc))))),
+                ("bond_tables_equal_on_both_factors", z3.ForAll([cc], z3.And(z3.Select(cml.has, cc) == z3.Select(cmr.has, cc), z3.Implies(z3.Select(cml.has, cc), z3.Select(cml.val, cc) == z3.Select(cmr.val, cc))))),
+                ("bond_directions_unchanged", z3.And(dual_term(bl) == dual_term(bondU), dual_term(br) == dual_term(bondV))),
+                ("outer_indices_kept", ui[0] is row_ix and vi[1] is col_ix),
+                # Valid: block shapes match the new bond table
+                ("U_block_columns_match_bond_table", z3.ForAll([key], z3.Implies(z3.Select(ub.has, key), cols(z3.Select(ub.val, key)) == z3.Select(cml.val, k1(key))))),
+                ("VH_block_rows_match_bond_table", z3.ForAll([key], z3.Implies(z3.Select(vb.has, key), rows(z3.Select(vb.val, key)) == z3.Select(cmr.val, k1(key))))),
+                ("s_block_lengths_match_bond_table", z3.ForAll([cc], z3.Implies(z3.Select(sb.has, cc), vlen(z3.Select(sb.val, cc)) == z3.Select(cml.val, cc)))),
+                ("bond_sizes_positive", z3.ForAll([cc], z3.Implies(z3.Select(cml.has, cc), z3.Select(cml.val, cc) >= 1))),
+            ]
+            return out
+
+        check_call(it, "svd_truncated.slicing", fn, [x], {"cutoff": SV(cutoff, TReal), "cutoff_mode": 1, "max_bond": -1, "absorb": None, "renorm": 0}, post=post)
+
+    return Task(
+        "C13.svd_truncated.slicing_and_bond_tables",
+        ["C13", "C01"],
+        [Q2, "abelian_core.AbelianArray.modify", "abelian_core.BlockIndex.copy_with"],
+        body,
+        axioms=axioms,
+        assumes=[
+            "A-order: svd() fills U.blocks and s.blocks in the same loop, so U.sectors and s.blocks.values() are iterated in corresponding order (python dict insertion order); made explicit as a sequence of sectors",
+            "post-state of svd(x) as proved in contracts/linalg_bonds.py (one block per column charge, shapes of the factors)",
+            "A-numpy: b[:, :n], b[:n, :], v[:n] keep the first n columns / rows / values",
+            "absorb=None path; the three absorb variants are compared in the bounded tier",
+        ],
+        timeout_ms=30000,
+    )
+
+
 def tasks():
-    return [_task(m, wb) for m in range(1, 7) for wb in (False, True)] + [_task(m, False, monotone=True) for m in range(1, 7)]
+    return [_slicing_task()] + [_task(m, wb) for m in range(1, 7) for wb in (False, True)] + [_task(m, False, monotone=True) for m in range(1, 7)]
